@@ -2,7 +2,8 @@ package types
 
 import (
 	"fmt"
-	
+	"sort"
+
 	"github.com/goghcrow/yae/util"
 )
 
@@ -47,6 +48,8 @@ func stringify(ty *Type, inProcess util.PtrSet) string {
 		for i, f := range fs {
 			xs[i] = fmt.Sprintf("%s: %s", f.Name, stringify(f.Val, inProcess))
 		}
+		// 对象类型相等不考虑字段顺序, 渲染结果(也用作重载函数的 key)同样与顺序无关
+		sort.Strings(xs)
 		return util.JoinStr(xs, ", ", "{", "}")
 	case KFun:
 		f := ty.Fun()
